@@ -12,9 +12,6 @@ import (
 )
 
 func init() {
-	register(&Rule{ID: "P-NODE-ASIS", Props: []string{"C10", "C20", "C01", "C05"}, Floor: 18,
-		Doc: "every operator case of the parser builds the node of that operator as a literal and stores it unchanged: binary cases `node = &XNode{Left: node, Right: <result of the recursion>}` with X the node of the token, prefix cases the NotNode / AssertNumberNode / NegateNode around the operand; no function rewrites, re-associates or folds the tree afterwards (parentheses and the written operator decide the grouping and the operation)",
-		Run: rulePNodeAsIs})
 	register(&Rule{ID: "E-LITERAL-CASES", Props: []string{"C16", "C18", "C01", "C06"}, Floor: 8,
 		Doc: "the literal and context cases of the dispatcher return exactly the value the parser stored: Array/Bool/Number/Object/String return node.Value, Null returns nil, Current returns the current node, Root returns the root; no conversion, caching or alternative representation",
 		Run: ruleELiteralCases})
